@@ -2031,6 +2031,9 @@ func (w *World) runTape() {
 		}
 		w.apply(acts[v%len(acts)])
 		w.tr.TapeUsed = i + 1
+		if i%16 == 15 {
+			w.snapshot("idle")
+		}
 	}
 }
 
@@ -2200,6 +2203,14 @@ func (w *World) endTunnels() {
 		}
 		w.settle()
 		w.drainDeliveries()
+	}
+	// a connection failure is eventually seen by both ends: propagate one-sided breaks
+	for _, s := range w.net.Streams() {
+		if s.BrokenOneSide() {
+			w.nextStep()
+			s.Break(true, true)
+			w.settle()
+		}
 	}
 	// stop reverse servers that never got a tunnel up, cancel opening contexts
 	for _, rs := range w.servers {
